@@ -19,27 +19,32 @@ LEVEL_TEXT = ('bounded symbolic model checking, decided modularly (a whole parse
               'action input is live (the documented condition).')
 
 ASSUMPTIONS = [
-    'bounds: Chunk in {1,2,4}; maximum per query constant (a heap buffer of symbolic size is prohibitively expensive for CBMC), quick: maximum 2, thorough: 0..4 '
-    '(capacity = maximum + Chunk <= 8); stream length <= capacity + 1 (one byte more than the buffer can ever hold: with c consumed-but-buffered bytes, w '
-    'window bytes and r bytes not yet read, every configuration c + w + r <= capacity + 1 is reached); amounts 0..capacity + 1',
-    'arbitrary valid state = state after the real operations require(a1); bump(k1); discard() or bump(k2) [thorough additionally: require(a3); bump(k3)] with symbolic '
-    'arguments, where the first require is served by its first read (a window of e bytes is reached by require(e) answered with e bytes, so no state is lost); '
-    'bytes in front of the cursor are never read by buffer_input and are left as these operations produce them',
-    'the reader is total and deterministic per stream offset (its read size is a symbolic table indexed by the offset: every finite sequence of legal read sizes '
-    'is some table); readers that throw (cstream_reader / istream_reader on I/O errors) are not modelled',
-    'reference for the leaf rules is memory_input< tracking_mode::eager, lf_crlf > over the rest of the stream; eager vs lazy tracking is C06, other Eol policies use the same '
-    'buffer_input code (Eol only enters through bump( in_count ) -> Eol::ch and the eol rule)',
-    'std::overflow_error( const char* ) / ~overflow_error are libstdc++ externals with empty models (the object is identified by its type only; what() is not called)',
-    'NOT APPLICABLE (I/O and FFI, cannot be encoded; listed, not claimed): read_input / internal::read_file_stdio (fopen/fread/fseek), mmap_input / internal::mmap_file '
-    '(open/fstat/mmap, empty files, page-size boundaries), file_input (alias of one of the two), cstream_input / cstream_reader (fread/feof/ferror), istream_input / '
-    'istream_reader (std::istream). Their PEGTL-side logic is: read_input = string_input over the string returned by read_string(); mmap_input = memory_input( data.begin(), '
-    'data.end() ); cstream/istream_input = buffer_input< reader > with a reader that forwards to fread / istream::read (both may legally return short reads, which is '
-    'the case covered by the symbolic reader)',
+    'bounds: Chunk in {1,2,4}; maximum is a constant per query (a heap buffer of symbolic size is prohibitively expensive for CBMC): quick (Chunk,maximum) = (2,2) all operations and '
+    'all leaf rules, (1,2) require/empty/rewind, (1,3) and (2,3) discard (moves two bytes), (4,2) require/discard; thorough: operations for Chunk 1 x maximum 2..4, Chunk 2 x 1..3, '
+    'Chunk 4 x 0..2 (capacity = maximum + Chunk <= 6), leaf rules for (2,2), (1,3), (4,1), any/eof for (2,0), grammars with discard for (1,2), (2,1); stream length <= capacity + 1 '
+    '(one byte more than the buffer can ever hold: with c consumed-but-buffered bytes, w window bytes and r bytes not yet read, every configuration c + w + r <= capacity + 1 is '
+    'reached); amounts 0..capacity + 1',
+    'arbitrary valid state = state after the real operations require(a1); bump(k1); discard() or bump(k2) [thorough additionally for (1,2), (2,2): ...; require(a3); bump(k3)] with '
+    'symbolic arguments, where the first require is served by its first read (a window of e bytes is reached by require(e) answered with e bytes, so no state is lost); bytes in '
+    'front of the cursor are never read by buffer_input and are left as these operations produce them',
+    'the reader is total and deterministic per stream offset (its read size is a symbolic table indexed by the offset: every finite sequence of legal read sizes is some table); '
+    'readers that throw (cstream_reader / istream_reader on I/O errors) are not modelled',
+    'reference for the leaf rules is memory_input< tracking_mode::eager, lf_crlf > over the rest of the stream, constructed with the byte/line/column of the buffer_input; eager vs '
+    'lazy tracking is C06; other Eol policies use the same buffer_input code (Eol only enters through bump( n ) -> Eol::ch and the eol rule)',
+    'std::overflow_error( const char* ) / ~overflow_error are libstdc++ externals with empty models (the object is identified by its type only; what() is not called); the '
+    "library's own assert()s are checked, not assumed",
+    'NOT APPLICABLE (I/O and FFI, cannot be encoded; listed, not claimed): read_input / internal::read_file_stdio (fopen/fread/fseek/ftell), mmap_input / internal::mmap_file '
+    '(open/fstat/mmap; empty files, page-size boundaries), file_input (alias of one of the two), cstream_input / cstream_reader (fread/feof/ferror), istream_input / '
+    'istream_reader (std::istream::read/gcount/eof). Their PEGTL-side logic, by reading: read_input = string_input over the string returned by read_string(); mmap_input = '
+    'memory_input( data.begin(), data.end() ); cstream_input / istream_input = buffer_input< reader > whose reader forwards to fread / istream::read (both may legally '
+    'return short reads: the case covered by the symbolic reader)',
     'argv_input( argv, n ) without explicit source builds its source name with std::ostringstream (not encoded); the check uses the constructor with an explicit source',
-    'string_input: std::string is libstdc++ (small-string path, <= 6 bytes; memcpy replaced by a byte loop because CBMC\'s built-in memcpy with symbolic length lost bytes '
-    'copied into the small-string buffer)',
-    'discard() inside a live rewind guard or under a rule with an action that takes the input is excluded (documented as forbidden: "MUST NOT be used where backtracking '
-    'to before the discard might occur")',
+    "string_input: std::string is libstdc++ (small-string path, <= 6 bytes; memcpy replaced by a byte loop in that harness because CBMC's built-in memcpy with symbolic length lost "
+    'bytes copied into the small-string buffer)',
+    'discard() while a rewind guard is live (rewind_mode::required above it) or under a rule with an action that takes the input is excluded (documented as forbidden: "MUST NOT be '
+    'used where backtracking to before the discard might occur AND/OR nested within a rule for which an action with input can be called"); note that an exception (must<>) that '
+    'unwinds through a live required-mode guard after a discard restores a stale cursor: the grammars with discard therefore run under rewind_mode::optional like '
+    'tao::pegtl::parse() does by default',
 ]
 
 OPS = ('require', 'size', 'end', 'empty', 'bump', 'bump_in_this_line', 'bump_to_next_line', 'discard', 'rewind')
